@@ -177,9 +177,13 @@ def char_test(c, ranges):
     r = char_in(c, ranges)
     if isinstance(r, bool):
         return r
-    side = E().branch(r)
+    eng = E()
+    side = eng.branch(r)
     if c.dom is not None:
         c.dom = _dom_and(c.dom, ranges) if side else _dom_minus(c.dom, ranges)
+        if c.dom and z3.is_const(c.t):
+            eng.set_bounds(c.t, c.dom[0][0], c.dom[-1][1])
+            eng._bcache.clear()
     return side
 
 
@@ -292,12 +296,37 @@ def binop(op, a, b):
                 raise Unsupported("symbolic * symbolic")
             return SymInt(x * y)
         if op == '//' and isinstance(b, int) and b > 0:
-            return SymInt(x / y)
+            return SymInt(small_div(x, b))
         if op == '%' and isinstance(b, int) and b > 0:
-            return SymInt(x % y)
+            return SymInt(small_mod(x, b))
         if op == '**' and isinstance(a, int) and isinstance(b, SymInt):
             raise Unsupported("const ** symbolic")
     raise Unsupported(f"binop {op} {type(a).__name__} {type(b).__name__}")
+
+
+SMALL_DIV_MAX = -1
+
+
+def small_div(x, b):
+    """x div b (b > 0 constant): an If-chain over the possible quotients when interval bounds show there are few."""
+    bd = E().bounds(x)
+    if bd is not None:
+        qlo, qhi = bd[0] // b, bd[1] // b
+        if qhi - qlo <= SMALL_DIV_MAX:
+            r = z3.IntVal(qhi)
+            for q in range(qhi - 1, qlo - 1, -1):
+                r = z3.If(x < (q + 1) * b, z3.IntVal(q), r)
+            return r
+    return x / b
+
+
+def small_mod(x, b):
+    bd = E().bounds(x)
+    if bd is not None:
+        qlo, qhi = bd[0] // b, bd[1] // b
+        if qhi - qlo <= SMALL_DIV_MAX:
+            return x - b * small_div(x, b)
+    return x % b
 
 
 def unary(op, a):
@@ -590,8 +619,13 @@ def store_subscript(o, i, v):
 RUNS = {}
 
 
+_DIGIT_MEMO = {}
+DIGIT_DIVMOD_MAX = 2
+
+
 def _reset_runs():
     RUNS.clear()
+    _DIGIT_MEMO.clear()
 
 
 def digits_of(a, n):
@@ -600,19 +634,30 @@ def digits_of(a, n):
     solver sees the linear equation sum d_k 10^k = a with 0 <= d_k <= 9 and, for runs of <= 2 digits, the
     div/mod definitions as well (DESIGN 2.1 encoding rule (i))."""
     eng = E()
+    a = z3.simplify(a) if not isinstance(a, int) else z3.IntVal(a)
+    mk = (a.get_id(), n)
+    hit = _DIGIT_MEMO.get(mk)
+    if hit is not None:
+        return [SymChar(c.t, dom=[(48, 57)], run=c.run) for c in hit[1]]
     ds = []
     tot = 0
     for k in reversed(range(n)):
         d = eng.fresh("dg")
         ds.append(d)
         tot = tot + d * (10 ** k)
-        eng.define(d, (a / (10 ** k)) % 10 if k else a % 10, assert_eq=(n <= 2))
+        if n <= DIGIT_DIVMOD_MAX:
+            dterm = small_mod(small_div(a, 10 ** k), 10) if k else small_mod(a, 10)
+        else:
+            dterm = (a / (10 ** k)) % 10 if k else a % 10
+        eng.define(d, dterm, assert_eq=(n <= DIGIT_DIVMOD_MAX))
         eng.set_bounds(d, 0, 9)
     eng.lemma(z3.And(*[z3.And(d >= 0, d <= 9) for d in ds]))
     eng.lemma(tot == a)
     rid = len(RUNS) + 1
     RUNS[rid] = a
-    return [SymChar(48 + d, dom=[(48, 57)], run=(rid, pos, n)) for pos, d in enumerate(ds)]
+    out = [SymChar(48 + d, dom=[(48, 57)], run=(rid, pos, n)) for pos, d in enumerate(ds)]
+    _DIGIT_MEMO[mk] = (a, out)
+    return [SymChar(c.t, dom=[(48, 57)], run=c.run) for c in out]
 
 
 def run_value(items):
